@@ -1,7 +1,7 @@
 """E2 - call graph by class-hierarchy analysis with the repository's dispatch idiom."""
 import ast
 
-from .loader import AnalysisError, attr_path, enclosing, walk_no_nested_defs, src
+from .loader import AnalysisError, attr_path, enclosing, walk_no_nested_defs, walk_code, possible_strings, src, call_name
 
 
 class CallGraph:
@@ -90,6 +90,11 @@ class CallGraph:
                 if isinstance(test.ops[0], ast.Eq):
                     ok, v = self.prog.try_const(r, f.mod)
                     return [v] if ok else None
+                if isinstance(test.ops[0], ast.In) and isinstance(r, ast.Name):
+                    ok, v = self.prog.try_const(r, f.mod)
+                    if ok and isinstance(v, (tuple, list, set, frozenset)) and all(isinstance(x, str) for x in v):
+                        return list(v)
+                    return None
                 if isinstance(test.ops[0], ast.In) and isinstance(r, (ast.List, ast.Tuple, ast.Set)):
                     vals = []
                     for e in r.elts:
@@ -192,23 +197,91 @@ class CallGraph:
                 if allowed is not None and c not in allowed:
                     continue
                 m = prog.resolve_method(c, meth)
-                if m and m not in out:
+                if m and m not in out and self._arity_fits(call, m):
                     out.append(m)
             return out
         return []
 
+    @staticmethod
+    def _arity_fits(call, m):
+        """False if calling method m with this call's arguments would be a TypeError (too many / too few / unknown keyword):
+        such a class cannot be the receiver's class on any run that gets past this call."""
+        if any(isinstance(a, ast.Starred) for a in call.args) or any(k.arg is None for k in call.keywords):
+            return True
+        a = m.node.args
+        if a.vararg or a.kwarg:
+            return True
+        params = [x.arg for x in a.posonlyargs + a.args]
+        if params and params[0] in ("self", "cls") and not any(isinstance(d, ast.Name) and d.id == "staticmethod" for d in m.node.decorator_list):
+            params = params[1:]
+        if len(call.args) > len(params):
+            return False
+        kwonly = [x.arg for x in a.kwonlyargs]
+        for k in call.keywords:
+            if k.arg not in params and k.arg not in kwonly:
+                return False
+        n_default = len(a.defaults)
+        required = params[:len(params) - n_default] if n_default else params
+        given = set(params[:len(call.args)]) | {k.arg for k in call.keywords}
+        return all(p in given for p in required)
+
     def _scan(self, f):
+        """Call edges of f.  Code in lambdas and nested functions belongs to f.  A method that escapes as a value
+        (`self.m` not called on the spot, operator.methodcaller("m"), getattr(x, "m")) is treated as called here: the
+        edge carries a synthetic Call node (attribute `synthetic`)."""
         ct = self._local_ctor_types(f)
         edges, unres = [], []
-        for n in walk_no_nested_defs(f.node):
+        called_funcs = set()
+        for n in walk_code(f.node):
+            if isinstance(n, ast.Call):
+                called_funcs.add(id(n.func))
+        for n in walk_code(f.node):
             if isinstance(n, ast.Call):
                 cs = self.resolve(n, f, ct)
                 if cs:
                     edges.append((n, cs))
                 else:
                     unres.append(n)
+                nm = call_name(n)
+                names = None
+                if nm in ("methodcaller", "operator.methodcaller") and n.args:
+                    names = possible_strings(self.prog, f, n.args[0])
+                elif nm == "getattr" and len(n.args) >= 2:
+                    names = possible_strings(self.prog, f, n.args[1])
+                for name in sorted(names or ()):
+                    cs = []
+                    for c in self.prog.classes_defining(name):
+                        for sub in self.prog.subclasses(c.name):
+                            m = self.prog.resolve_method(sub, name)
+                            if m and m not in cs:
+                                cs.append(m)
+                    if cs:
+                        edges.append((self._synthetic(n, ast.Attribute(value=ast.Name(id="<dynamic>", ctx=ast.Load()), attr=name, ctx=ast.Load())), cs))
+            elif isinstance(n, ast.Attribute) and isinstance(n.ctx, ast.Load) and id(n) not in called_funcs \
+                    and isinstance(n.value, ast.Name) and n.value.id == "self" and f.cls is not None:
+                cs = []
+                for c in self.prog.subclasses(f.cls.name):
+                    m = self.prog.resolve_method(c, n.attr)
+                    if m and m not in cs:
+                        cs.append(m)
+                if cs:
+                    edges.append((self._synthetic(n, n), cs))
+            elif isinstance(n, ast.Name) and isinstance(n.ctx, ast.Load) and id(n) not in called_funcs and n.id in f.mod.funcs \
+                    and not any(isinstance(x, ast.Name) and isinstance(x.ctx, ast.Store) and x.id == n.id for x in walk_code(f.node)) and n.id not in f.params:
+                edges.append((self._synthetic(n, n), [f.mod.funcs[n.id]]))
         self.calls[f.qual] = edges
         self.unresolved[f.qual] = unres
+
+    @staticmethod
+    def _synthetic(at, func_expr):
+        c = ast.Call(func=func_expr, args=[], keywords=[])
+        ast.copy_location(c, at)
+        for x in ast.walk(c):
+            if not hasattr(x, "lineno"):
+                ast.copy_location(x, at)
+        c.parent = getattr(at, "parent", None)
+        c.synthetic = True
+        return c
 
     # ---- queries -----------------------------------------------------------------
     def classes_defining_name(self, meth):
